@@ -54,7 +54,7 @@ def run():
     jobs = [('IndexExprs.lean', index_exprs.generate)]
     for mod in ('constants', 'rotmodes', 'loops', 'colour', 'caches', 'codec', 'effects', 'wavekernels', 'geometry', 'callsites',
                 'samplers', 'quantisers', 'slicers', 'foveation', 'losses', 'pipelines', 'gradbreakers', 'geombatch', 'defocus', 'spheresearch',
-                'pipelines_more', 'colourtensors', 'padcrop', 'imagecodec', 'statemachines', 'raycreate', 'raycreatebatch', 'holograms', 'statecensus', 'cylinder', 'samplers_more', 'plygen', 'propobject', 'lossobjects', 'meshobject', 'optattrs'):
+                'pipelines_more', 'colourtensors', 'padcrop', 'imagecodec', 'statemachines', 'statsmaps', 'raycreate', 'raycreatebatch', 'holograms', 'statecensus', 'cylinder', 'samplers_more', 'plygen', 'propobject', 'lossobjects', 'meshobject', 'optattrs'):
         try:
             m = __import__('harness.translate.' + mod, fromlist=['generate'])
             jobs.append((m.FILE, m.generate))
